@@ -92,7 +92,9 @@ fn main() {
 }
 
 fn real_main() {
-    std::panic::set_hook(Box::new(|_| {}));
+    if std::env::var_os("EPSH_SHOW_PANICS").is_none() {
+        std::panic::set_hook(Box::new(|_| {}));
+    }
     let reg = gen_types::registry();
     let sreg = gen_types::slice_registry();
     let dnames = gen_types::dtype_names();
@@ -264,6 +266,8 @@ fn real_main() {
                 None => "badval".into(),
             }),
             ["bigfile", kind, spec, loader, prefix] => Some(epsh::ops::bigfile(kind, spec, loader, prefix)),
+            ["tracked"] => Some(format!("tracked {:?}", epsh::alloc::tracked_blocks())),
+            ["bigser", n, sink] => Some(epsh::ops::bigser(n.parse().unwrap(), sink)),
             ["dropcheck", loader, n] => Some(epsh::ops::dropcheck(loader, n.parse().unwrap())),
             ["fload", i, loader, h] => Some(match reg[i.parse::<usize>().unwrap()].fload {
                 Some(f) => f(&unhex(h), loader),
